@@ -28,9 +28,13 @@ func (o SortOrder) Fields() (fields []string) {
 	return fields
 }
 
+// Copy returns a sort order which can be changed (see Reverse)
+// without affecting the original
 func (o SortOrder) Copy() SortOrder {
 	rv := make(SortOrder, len(o))
-	copy(rv, o)
+	for i, s := range o {
+		rv[i] = s.copy()
+	}
 	return rv
 }
 
@@ -91,6 +95,25 @@ func SortBy(source TextValueSource) *Sort {
 		first: &rv.missingFirst,
 	})
 
+	return rv
+}
+
+func (s *Sort) copy() *Sort {
+	rv := &Sort{
+		source:       s.source,
+		desc:         s.desc,
+		missingFirst: s.missingFirst,
+	}
+	// the value used for missing fields follows the direction
+	// of the copy, not of the original
+	if m, ok := s.source.(*MissingTextValueSource); ok {
+		if _, ok := m.replacement.(*sortFirstLast); ok {
+			rv.source = MissingTextValue(m.primary, &sortFirstLast{
+				desc:  &rv.desc,
+				first: &rv.missingFirst,
+			})
+		}
+	}
 	return rv
 }
 
